@@ -113,8 +113,8 @@ func (r *Report) Floor(rule string, got, min int, what string) {
 func (r *Report) Unit(format string, a ...interface{}) {
 	r.Units = append(r.Units, fmt.Sprintf(format, a...))
 }
-func (r *Report) Assume(s string)  { r.Assumptions = append(r.Assumptions, s) }
-func (r *Report) Trust(s string)   { r.Trusted = append(r.Trusted, s) }
+func (r *Report) Assume(s string) { r.Assumptions = append(r.Assumptions, s) }
+func (r *Report) Trust(s string)  { r.Trusted = append(r.Trusted, s) }
 func (r *Report) Explainf(format string, a ...interface{}) {
 	r.Explain = append(r.Explain, fmt.Sprintf(format, a...))
 }
